@@ -178,6 +178,28 @@ func c18ConcurrentDelivery(c *h.Ctx) {
 	a := actor.NewActor()
 	a.SetAdapter(sp)
 	a.SetRunner(br)
+	// first: a hand state delivered on a snapshot that is still "opened" (table-level event right after the open),
+	// then on the playing snapshot: the bot is asked, and answers exactly once
+	for i, allowed := range [][]string{{"ready"}, {"pay"}, {"check", "allin"}} {
+		event := []string{"ReadyRequested", "BlindsRequested", "RoundStarted"}[i]
+		t1 := c19Table(allowed, event, []string{"bb"}, 10, int64(100+i))
+		t1.State.Status = pt.TableStateStatus_TableGameOpened
+		sp.gs = t1.State.GameState
+		before := len(sp.snapshotCalls())
+		a.UpdateTableState(t1)
+		if got := sp.snapshotCalls()[before:]; len(got) != 0 {
+			c.Violate("C18/acted-on-a-snapshot-that-is-not-playing", fmt.Sprintf("the bot submitted %v on a snapshot with status opened", got), nil)
+			return
+		}
+		t2 := c19Table(allowed, event, []string{"bb"}, 10, int64(100+i))
+		sp.gs = t2.State.GameState
+		a.UpdateTableState(t2)
+		if got := sp.snapshotCalls()[before:]; len(got) != 1 {
+			c.Violate("C18/asked-bot-stayed-silent/state-first-seen-on-an-opened-snapshot", fmt.Sprintf("%s allowed %v was first delivered on a snapshot with status opened and then on the playing snapshot: the bot answered %d times (%v)", event, allowed, len(got), got), nil)
+			return
+		}
+	}
+	c.Feature("state-first-seen-on-an-opened-snapshot")
 	rounds := 300
 	if c.Thorough() {
 		rounds = 3000
@@ -295,12 +317,14 @@ func c18Run(c *h.Ctx) {
 			if gs == nil {
 				return
 			}
+			// a state that arrives on a snapshot which is not playing (e.g. still "opened": table-level event right
+			// after the open) asks nobody; it does not make the playing snapshot that carries the same state stale
+			if t.State.Status != pt.TableStateStatus_TableGamePlaying {
+				return
+			}
 			fresh := gs.UpdatedAt > last[gs.GameID]
 			if fresh {
 				last[gs.GameID] = gs.UpdatedAt
-			}
-			if t.State.Status != pt.TableStateStatus_TableGamePlaying {
-				return
 			}
 			gp := t.GamePlayerIndex(pl.ID)
 			if gp < 0 || gp >= len(gs.Players) || len(gs.Players[gp].AllowedActions) == 0 {
@@ -500,14 +524,14 @@ func init() {
 		Technique: "runtime monitoring with an adapter spy between every bot and the real engine: per delivered view the spy decides whether the bot is asked (dealt in, allowed actions, view newer than anything delivered before) and checks: exactly one call, for itself, allowed kind, legal amount, accepted by the engine; silence otherwise; stale views are re-delivered on purpose; every bot-only hand must settle",
 		Rule: "case = one bot-only table (2..9 bots, CT/cash, default or short deck, ante on/off, SB/BB / dealer-blind / no-SB, stacks from one chip to deep, a quarter of the cases with stacks at or below one big blind) playing 4..11 hands or until fewer than two bots have chips; earlier views are re-delivered between hands and a table-level event re-publishes the hand state mid-hand; one case in twenty uses humanized bots (thinking 0..1 s per wager) while a second goroutine keeps re-publishing the hand state; " +
 			"non-trivial = at least one hand was played and the bots made calls; distinct = config + seed",
-		Assumptions: []string{"non-humanized bots answer synchronously inside the delivery, so calls made during a delivery belong to it", "a view is stale when an equal or newer state of the same hand was delivered to that bot before"},
+		Assumptions: []string{"non-humanized bots answer synchronously inside the delivery, so calls made during a delivery belong to it", "a view is stale when an equal or newer state of the same hand was delivered to that bot before on a playing snapshot"},
 		Cases:       func(tier string) int { return map[string]int{"quick": 400, "thorough": 6000}[tier] },
 		MinNontrivial: func(tier string) int {
 			return map[string]int{"quick": 350, "thorough": 5500}[tier]
 		},
 		RequiredFeatures: func(tier string) []string {
 			f := []string{"bot-action:ready", "bot-action:pay", "bot-action:call", "bot-action:raise", "bot-action:bet", "bot-action:allin", "bot-action:fold", "bot-action:check", "bot-action:pass", "stale-view-redelivered", "table-event-mid-hand", "stack-at-most-one-big-blind"}
-			f = append(f, "humanized", "table-events-while-bots-think", "same-view-delivered-concurrently")
+			f = append(f, "humanized", "table-events-while-bots-think", "same-view-delivered-concurrently", "state-first-seen-on-an-opened-snapshot")
 			return f
 		},
 		CaseTimeout: 240e9,
